@@ -485,6 +485,71 @@ def rerun(r0: int, r1: int, r2: int, g0: int) -> bool:
     return hx.end(True)
 
 
+import ECAgent.Decode as _D
+
+
+class _DecModel(Model, _D.IDecodable):
+    @staticmethod
+    def decode(params):
+        return _DecModel(seed=params["seed"], logger=NULL_LOGGER)
+
+
+class _DecWalker(_Walker, _D.IDecodable):
+    @staticmethod
+    def decode(params):
+        return _DecWalker(params["id"], params["model"], priority=params["priority"])
+
+
+class _DecAgent(HA, _D.IDecodable):
+    @staticmethod
+    def decode(params):
+        return _DecAgent("d%d" % params["agent_index"], params["model"])
+
+
+class _MemoryDecoder(_D.Decoder):
+    """a decoder for descriptions held in memory: open_file hands out the same dict every time"""
+
+    def __init__(self, data):
+        self.data = data
+
+    def open_file(self, path):
+        return self.data
+
+
+def decoded_twice(r0: int, r1: int, g0: int, g1: int, p0: int) -> bool:
+    """
+    pre: r0 >= 0 and r1 >= 0 and g0 >= 0 and g1 >= 0
+    post: _
+    """
+    # two models decoded from ONE description (the same dict object, e.g. a cached parse): each draws from its own
+    # generator only, and stepping one does not touch the other
+    hx.begin()
+    data = {"model": {"name": "_DecModel", "module": __name__, "params": {"seed": 7}},
+            "systems": [{"name": "_DecWalker", "module": __name__, "params": {"id": "walk", "priority": p0}}],
+            "agents": [{"name": "_DecAgent", "module": __name__, "number": 2, "params": {}}]}
+    dec = _MemoryDecoder(data)
+    m1 = dec.decode("model.json")
+    m2 = dec.decode("model.json")
+    if m1 is m2:
+        return hx.end(hx.fail("two decodes returned one model"))
+    m1.random, m2.random = SymRandom([g0, g1]), SymRandom([r0, r1])
+    for m in (m1, m2):
+        if len(m.environment) != 2 or list(m.systems.systems) != ["walk"] or m.systems.systems["walk"].model is not m:
+            return hx.end(hx.fail("a decoded model's systems / agents belong to another model"))
+        for a in m.environment:
+            if a.model is not m:
+                return hx.end(hx.fail("a decoded model's agent belongs to another model"))
+    m2.execute(2)
+    hx.reach('stepped')
+    if m1.random.draws != [] or m1.timestep != 0 or m1.environment.components.get("log"):
+        return hx.end(hx.fail("stepping the second decoded model drew from / changed the first", first_draws=m1.random.draws))
+    want = [("walk", 0, "d1" if r0 % 2 else "d0"), ("walk", 1, "d1" if r1 % 2 else "d0")]
+    got = m2.environment.components.get("log", [])
+    if got != want:
+        return hx.end(hx.fail("trajectory of the second decoded model", got=got, exp=want))
+    return hx.end(True)
+
+
 BOUNDS = {"agents": "<= 3", "draws": "<= 3 from the model stream, all non-negative ints", "global-generator stream": "all non-negative ints",
           "set iteration order": "every permutation (symbolic Lehmer code, digits 0..7)", "tags": "0/1"}
 OUTSIDE = ["hash seeds other than the pinned ones in `system_order` (each is decided symbolically over priorities, the seeds are enumerated)",
@@ -529,6 +594,8 @@ def obligations(tier):
           labels=("two_steps",), timeout=900, encoded=(Env.DiscreteWorld.get_moore_neighbours, Env.DiscreteWorld.get_neumann_neighbours,
                                                        Env.DiscreteWorld.get_neighbours, Environment.get_agents, Env.SpaceWorld.get_agents_at),
           bounds={"world": "2x2 GridWorld, 3 agents", "timesteps": 2, "list consumed": "pop(randrange(len)) on the framework's answer"}),
+        X("decoded_twice", decoded_twice, labels=("stepped",), timeout=300, encoded=(_D.Decoder.decode, Environment.get_random_agent),
+          bounds={"description": "1 system, 2 agents, decoded twice from the same dict", "timesteps": 2}),
         X("batch_seed", batch_seed, labels=("built",), timeout=300,
           encoded=(Model.__init__,), bounds={"seed": "all ints", "runner": "batch_run / grid_search", "model": "seed declared / via **kwargs"}),
         X("seed_plumbing", seed_plumbing, parts=[{"positional": True}, {"positional": False}], labels=("seed_zero", "no_seed"),
